@@ -41,7 +41,7 @@ class CsvReader(Filter[Iterable[str], Iterable[MutableSequence]]):
 
     def filter(self, items: Iterable[str]) -> Iterable[Dense]:
 
-        lines = iter(csv.reader(iter(filter(str.strip,(i.rstrip('\r\n') for i in items))), **self._dialect))
+        lines = iter(csv.reader((i.rstrip('\r\n')+'\n' for i in items if i.strip()), **self._dialect))
         first = next(lines)
 
         if self._has_header:
